@@ -1,4 +1,4 @@
-HOOK_COMMITS = ["75c4ba1", "a6cb873", "8a35c75", "5482b4f", "5942103", "1f599f2"]
+HOOK_COMMITS = ["75c4ba1", "a6cb873", "8a35c75", "5482b4f", "5942103", "1f599f2", "ed945f7"]
 
 NOT_APPLICABLE_REASONS = {}
 
@@ -61,7 +61,7 @@ META = {
         "level_note": "Trusts the hand-written encoder and the three hex snapshots of the test-suite as the definition of the pinned encodings.",
     },
     "C10": {
-        "technique": "runtime monitoring with fault enumeration: every adversarial frame sequence up to length 3 (thorough 4) against the real initiator and acceptor drivers over in-memory pipes; real<->real sessions with a local fault before every frame; shutdown races",
+        "technique": "runtime monitoring with fault enumeration: every adversarial frame sequence up to length 3 (thorough 4) against the real initiator and acceptor drivers over in-memory pipes; real<->real sessions with a local fault before every frame; shutdown races; a complete docs node on loopback against a hand-driven peer (declined requests must leave the store unchanged)",
         "design_ref": "DESIGN.md §5 C10",
         "level_text": "Exhaustive over the 15-letter frame alphabet up to the bounded length (x4 accept decisions), plus every fault position (close replica, sync off, actor shutdown, cut after / inside frame) of generated real sessions, plus requests racing with actor shutdown. Each side must end with Ok or a reported error, the outcome must be collectable, declines must not change the store, counters mirror on success, the actor must stay responsive. Non-termination is decided on exhausted inputs (streams closed, actor answering), not on a deadline.",
         "level_note": "The mirror equation is not judged when the harness cut the stream cleanly at a frame boundary: end-of-stream is the protocol's end marker and only an in-memory pipe can produce it on both sides mid-session.",
@@ -91,9 +91,9 @@ META = {
         "level_note": "Histories are short (<=20 operations, <=4 clients) so the linearizability search is tiny; a checker time-out is reported as inconclusive. The handle count after a refused removal is adopted from the actor (not part of the statement).",
     },
     "C15": {
-        "technique": "runtime monitoring: one-line matcher specification compared with DownloadPolicy::matches over all keys; persistence model; textual round-trips; event flags from a real actor",
+        "technique": "runtime monitoring: one-line matcher specification compared with DownloadPolicy::matches over all keys; persistence model; textual round-trips; event flags from a real actor; download decisions of a real live actor observed through hook H7",
         "design_ref": "DESIGN.md §5 C15",
-        "level_text": "Policies of both kinds with 0-5 exact/prefix filters (empty, non-UTF-8, colon-containing) against every key up to length 3 over the alphabet; set/get persistence across reopen and documents; parse(display(f)) == f; should_download of real events equals the matcher. " + _EXPL,
+        "level_text": "Policies of both kinds with 0-5 exact/prefix filters (empty, non-UTF-8, colon-containing) against every key up to length 3 over the alphabet; set/get persistence across reopen and documents; parse(display(f)) == f; should_download of real events equals the matcher. Live mode: entries under random policies through the real store actor, their events handed to the live actor's own handler, neighbours announcing content; content is queued for download or remembered as missing exactly when the policy selects the entry's key. " + _EXPL,
         "level_note": "Trusts the matcher specification in the harness (four lines).",
     },
     "C16": {
